@@ -12,6 +12,9 @@
 (*   frames    frames[f][i] = position of particle i in frame f            *)
 (*   nb        nb[f][i] = GIVEN neighbour list of particle i in frame f    *)
 (*             (sequence of ids; the file syntax is module Neighbors)      *)
+(*   wt        wt[f][i][k] = GIVEN positive integer weight of the k-th     *)
+(*             listed neighbour of i in frame f (a weights file in the     *)
+(*             format of the neighbour file, e.g. Voronoi face areas)      *)
 (*   field     field[i] = an integer vector attached to particle i (a      *)
 (*             vector quantity: rotated with the axes, never translated)   *)
 (*   vecs      integer wave vectors n (q = 2 pi n / L)                     *)
@@ -201,7 +204,8 @@ ApplyRelabel(g, c) ==
                 !.frames = [f \in 1..NFrames(c) |-> [j \in 1..n |-> c.frames[f][inv[j]]]],
                 !.field  = [j \in 1..n |-> c.field[inv[j]]],
                 !.nb     = [f \in 1..Len(c.nb) |-> [j \in 1..n |->
-                               [k \in 1..Len(c.nb[f][inv[j]]) |-> pi[c.nb[f][inv[j]][k]]]]]]
+                               [k \in 1..Len(c.nb[f][inv[j]]) |-> pi[c.nb[f][inv[j]][k]]]]],
+                !.wt     = [f \in 1..Len(c.wt) |-> [j \in 1..n |-> c.wt[f][inv[j]]]]]
 
 ApplySwap(g, c) ==
   LET sig == SwapOf(g, NSpecies(c)) IN
@@ -419,6 +423,8 @@ BondsEquivariant(c, st) ==
     \A i \in 1..NPart(c) :
       /\ Len(B2x[st.pi[i]]) = Len(B[i])
       /\ \A k \in 1..Len(B[i]) : B2x[st.pi[i]][k] = MatVec(st.lin, B[i][k])
+      \* the given weights stay with their bonds (weighted q_lm = sum_k w_k Y_lm(bond_k) / sum_k w_k)
+      /\ st.c.wt[f][st.pi[i]] = c.wt[f][i] /\ Len(c.wt[f][i]) = Len(B[i])
 
 \* 2-D: lin is z -> rho z (det > 0) or z -> rho conj z (det < 0), rho = first column of lin
 Rho(st)      == <<st.lin[1][1], st.lin[2][1]>>
@@ -488,6 +494,9 @@ WellFormed(c) ==
   /\ Range(c.types) = 1..NSpecies(c)
   /\ \A f \in 1..Len(c.nb) : \A i \in 1..NPart(c) : \A k \in 1..Len(c.nb[f][i]) :
        c.nb[f][i][k] \in (1..NPart(c)) \ {i}
+  /\ Len(c.wt) = Len(c.nb)
+  /\ \A f \in 1..Len(c.wt) : \A i \in 1..NPart(c) :
+       Len(c.wt[f][i]) = Len(c.nb[f][i]) /\ \A k \in 1..Len(c.wt[f][i]) : c.wt[f][i][k] >= 1
 ActionWellFormed(c, st) ==
   /\ IsPerm(st.pi, NPart(c)) /\ IsPerm(st.sigma, NSpecies(c)) /\ IsPerm(st.ax, c.d)
   /\ IsSimilarity(st)
@@ -555,17 +564,18 @@ ObsOf(c, st) == SelectSeq(ObsNames, LAMBDA ob : Respects(ob, Shape(c), st))
 (*   small inputs                   l = 4, 6 with q, Q, w, w-hat, W-hat;   *)
 (*     words whose linear map is not a multiple of the identity (axis      *)
 (*     permutations, rotations: the only ones that move bond DIRECTIONS)   *)
-(*     in addition l = 12 (general branch; q, Q, w, w-hat) and one more    *)
-(*     degree (q, Q only) that rotates through the remaining tabulated     *)
-(*     degrees and the odd degrees 11, 13 of the general branch            *)
+(*     in addition l = 12 (general branch; q, Q, w, w-hat) and q, Q of     *)
+(*     every other degree 1..13 (each tabulated routine, and the odd       *)
+(*     degrees 11, 13 of the general branch)                               *)
 (* Entries <<l, kind>>: kind 2 = q Q w w-hat W-hat, 1 = q Q w w-hat, 0 = q Q *)
+(* (q, Q of every listed degree also with the given weights wt)            *)
 (***************************************************************************)
 ScalarLin(st) == \A a, b \in 1..Len(st.lin) : a # b => st.lin[a][b] = 0
-ExtraDegrees  == <<1, 2, 3, 5, 7, 8, 9, 10, 11, 13>>
-BooDegrees(n, st, key) ==
+OtherDegrees  == <<1, 2, 3, 5, 7, 8, 9, 10, 11, 13>>
+BooDegrees(n, st) ==
   IF n > 40 THEN << <<6, 2>> >>
   ELSE IF ScalarLin(st) THEN << <<4, 2>>, <<6, 2>> >>
-  ELSE << <<4, 2>>, <<6, 2>>, <<12, 1>>, <<ExtraDegrees[(key % Len(ExtraDegrees)) + 1], 0>> >>
+  ELSE << <<4, 2>>, <<6, 2>>, <<12, 1>> >> \o [k \in 1..Len(OtherDegrees) |-> <<OtherDegrees[k], 0>>]
 
 (***************************************************************************)
 (* Evaluation schedule.  The property speaks about configurations, not     *)
